@@ -194,12 +194,18 @@ func (in *Interp) reMatch(re *regexp.Regexp, s *StrVal) Value {
 	if c, ok := s.Concrete(); ok {
 		return in.St.Bool(re.MatchString(c))
 	}
+	if v, ok := in.reMatchUniform(re, s); ok {
+		return v
+	}
 	return in.reMatchSym(re, s)
 }
 
 func (in *Interp) reSubmatch(re *regexp.Regexp, s *StrVal) Value {
 	if c, ok := s.Concrete(); ok {
 		return in.strSliceVal(re.FindStringSubmatch(c))
+	}
+	if v, ok := in.reSubmatchUniform(re, s); ok {
+		return v
 	}
 	return in.reSubmatchSym(re, s)
 }
@@ -210,5 +216,10 @@ func (in *Interp) reReplaceAll(re *regexp.Regexp, s, repl *StrVal) Value {
 	if ok1 && ok2 {
 		return &StrVal{C: re.ReplaceAllString(c, r)}
 	}
-	panic(in.unsupported("regexp.ReplaceAllString on a symbolic string"))
+	if ok2 {
+		if v, ok := in.reReplaceUniform(re, s, r); ok {
+			return v
+		}
+	}
+	panic(in.unsupported("regexp.ReplaceAllString on a symbolic string the pattern can distinguish: " + re.String()))
 }
